@@ -2,10 +2,11 @@
 (***************************************************************************)
 (* openapi3filter.Validator.Middleware (middleware.go) as a state machine. *)
 (*                                                                         *)
-(* L2 (implementation-shaped): the request gate (FindRoute, ValidateRequest)*)
-(* the two response wrappers (warnResponseWrapper, strictResponseWrapper)  *)
-(* with their headerWritten / status / body state, the response check and  *)
-(* the flush / errFunc epilogue.  One action per call the handler makes.   *)
+(* L2 (implementation-shaped): the request gate (FindRoute, ValidateRequest*)
+(* under the validator's configured Options), the two response wrappers    *)
+(* (warnResponseWrapper, strictResponseWrapper) with their headerWritten / *)
+(* status / body state, the response check and the flush / errFunc         *)
+(* epilogue.  One action per call the handler makes.                       *)
 (*                                                                         *)
 (* L1 (contract, property C14): Contract(cfg, script, observation).  It is *)
 (* stated over what an HTTP client of a net/http-conforming ResponseWriter *)
@@ -16,37 +17,88 @@
 (* middleware (MC_C14 emits every done-state's script), and trace          *)
 (* validation of what the real middleware did (Trace_C14).                 *)
 (***************************************************************************)
-EXTENDS Naturals, Sequences, FiniteSets, TLC
+EXTENDS Naturals, Sequences, FiniteSets, TLC, FindingsC14
 
-CONSTANTS MaxCalls,      \* bound on the number of handler calls (exhaustive configs)
-          ZeroStatusFix  \* TRUE: wrappers report 200 when the handler never wrote a header (the
+CONSTANTS MaxCalls,      \* bound on the number of handler calls (configurations explored in full depth)
+          SideCalls,     \* bound on the number of handler calls for the side configurations (see Depth)
+          ExtMax,        \* bound on the number of extended calls (IsExt) in one behaviour
+          ExtDepth,      \* bound on the length of a behaviour that contains an extended call
+          ZeroStatusFix, \* TRUE: wrappers report 200 when the handler never wrote a header (the
                          \* repaired code); FALSE: they report 0 (the pinned tree: D finds the
                          \* WriteHeader(0) panic / unvalidated implicit 200)
+          InfoFix        \* FALSE: the wrappers take WriteHeader(1xx) for the response's status (the code
+                         \* as it is: open finding F-C14-2); TRUE: the proposed repair (informational
+                         \* responses do not commit: warn forwards them, strict drops them)
 
-Statuses   == {200, 201, 500}
+FinalStatuses == {200, 201, 500}
+NoBodyStatuses == {204}                             \* final statuses that forbid a body: net/http refuses every Write after them
+Statuses   == FinalStatuses \cup NoBodyStatuses \cup InfoStatuses      \* InfoStatuses: FindingsC14 (1xx other than 101)
 CTs        == {"json", "text"}
 Toks       == {"A", "B", "N", "P1", "P2", "E"}
-(* request classes realised by the harness against the test document:                      *)
+(* request classes realised by the harness against the test documents.                      *)
+(* document 1 (no global security):                                                          *)
 (*   valid_post     POST /items?n=1 with a valid JSON body (operation-level param + body)   *)
 (*   valid_plain    GET /plain/5   (operation without own parameters; path-level {id})      *)
-(*   valid_secure   GET /secure    (security requirement, callback accepts)                 *)
-(*   nf_path / nf_method           no such path / method not declared under the path        *)
-(*   inv_body / inv_param          POST /items with a schema-violating body / query param   *)
-(*   inv_pathlevel  GET /plain/abc (path-level integer parameter violated)                  *)
-(*   inv_security   GET /secure    (callback rejects)                                       *)
 (*   valid_upgrade  valid_post carrying "Connection: Upgrade" and "Upgrade: websocket" -- headers a client chooses;     *)
 (*                  the handler under test is an ordinary HTTP handler, so they change nothing                        *)
-ValidClasses == {"valid_post", "valid_plain", "valid_secure", "valid_upgrade"}
-NotFoundClasses == {"nf_path", "nf_method"}
-InvalidClasses == {"inv_body", "inv_param", "inv_pathlevel", "inv_security"}
-ReqClasses == ValidClasses \cup NotFoundClasses \cup InvalidClasses
+(*   opt_anon       GET /optional  (security: [{key}, {}] -- anonymous access allowed), no key sent                   *)
+(*   nf_path / nf_method           no such path / method (DELETE) not declared under the path *)
+(*   nf_options / nf_head          OPTIONS / HEAD on /items: methods with a life of their own in HTTP (preflight, headers    *)
+(*                  only) but none in the document -- no route                                                           *)
+(*   inv_body / inv_param          POST /items with a schema-violating body / query param   *)
+(*   inv_nobody     POST /items?n=1 without a body (requestBody is required)                 *)
+(*   inv_ctype      valid_post's body sent as text/plain (no such media type under requestBody) *)
+(*   inv_noparam    POST /items without the required query parameter n                        *)
+(*   inv_pathlevel  GET /plain/abc (path-level integer parameter violated)                  *)
+(*   valid_secure / inv_security / sec_nokey   GET /secure (operation-level security requirement [{key}]) with       *)
+(*                  X-Key: good / X-Key: bad / no X-Key header                                                       *)
+(* document 2 (global security: [{key}]):                                                                            *)
+(*   g_good / g_bad GET /g (inherits the global requirement) with X-Key: good / bad                                   *)
+(*   g_open         GET /gopen (security: [] overrides the global requirement), no key                                *)
+(* Whether a request that meets a security requirement validates depends on the AuthenticationFunc the gate was      *)
+(* configured with (cfg.auth), whether a body / query violation matters depends on the Options (cfg.opt).             *)
+BaseValid       == {"valid_post", "valid_plain", "valid_upgrade", "opt_anon", "g_open"}
+NotFoundClasses == {"nf_path", "nf_method", "nf_options", "nf_head"}
+BaseInvalid     == {"inv_body", "inv_param", "inv_pathlevel", "inv_nobody", "inv_ctype", "inv_noparam"}
+SecGood         == {"valid_secure", "g_good"}
+SecBad          == {"inv_security", "sec_nokey", "g_bad"}
+SecClasses      == SecGood \cup SecBad
+ReqClasses == BaseValid \cup NotFoundClasses \cup BaseInvalid \cup SecClasses
 ErrModes   == {"default", "custom"}
+(* how the gate was given its AuthenticationFunc:                                                                     *)
+(*   callback  a function that accepts exactly X-Key: good                                                            *)
+(*   noop      openapi3filter.NoopAuthenticationFunc (accepts everybody)                                              *)
+(*   nofunc    Validator: ValidationOptions(Options{...}) without AuthenticationFunc;  ValidationHandler: field nil    *)
+(*   noopts    Validator: no ValidationOptions option at all                                                          *)
+(* Options.AuthenticationFunc: "A document with security schemes defined will not pass validation unless an           *)
+(* AuthenticationFunc is defined" -- the Validator fails closed; ValidationHandler.Load installs the no-op one.       *)
+Auths      == {"callback", "noop", "nofunc", "noopts"}
+Gates      == {"validator", "vhandler", "vhandler_mw", "vhandler_def"}
+IsVH(c)    == c.gate \in {"vhandler", "vhandler_mw", "vhandler_def"}
+(* opt: the ValidationOptions the validator was built with, as far as they change a verdict                           *)
+RespOpts   == {"include_status", "exclude_body"}
+ReqOpts    == {"multi_error", "excl_req_body", "excl_query"}
+Opts       == {"none"} \cup RespOpts \cup ReqOpts
 (* the request the SAME middleware instance served just before the one under observation (realised by the harness):  *)
 (*   p204      a valid request whose handler answers 204 without a body                                            *)
 (*   pbadresp  a valid request whose handler answers 200 with a body that violates the schema                      *)
 (*   pbadreq   a request with a schema-violating body (rejected at the gate)                                       *)
+(*   cbadresp / cbadreq  the same instance serves a stream of pbadresp / pbadreq requests on other goroutines      *)
+(*             WHILE it serves the request under observation                                                       *)
 (* The middleware keeps no state between requests (L2 below has none), so the contract ignores the primer.        *)
-Primers    == {"none", "p204", "pbadresp", "pbadreq"}
+Primers    == {"none", "p204", "pbadresp", "pbadreq", "cbadresp", "cbadreq"}
+
+AuthAccepts(c) ==
+   CASE c.auth = "callback" -> c.reqClass \in SecGood
+     [] c.auth = "noop"     -> TRUE
+     [] OTHER               -> IsVH(c)
+
+(* "a route is found and the request validates" (under the gate's configured options) *)
+RequestValid(c) ==
+   \/ c.reqClass \in BaseValid
+   \/ c.reqClass \in SecClasses /\ AuthAccepts(c)
+   \/ c.reqClass \in {"inv_body", "inv_nobody", "inv_ctype"} /\ c.opt = "excl_req_body"     \* Options.ExcludeRequestBody
+   \/ c.reqClass \in {"inv_param", "inv_noparam"} /\ c.opt = "excl_query"      \* Options.ExcludeRequestQueryParams
 
 (* the bytes behind each body token; P1 \o P2 = A on purpose (writes in pieces) *)
 Bytes(t) == CASE t = "A"  -> "{\"id\":1}"
@@ -72,17 +124,38 @@ Clear(ts) == LET n == NonEmpty(ts) IN
    /\ ~(Len(n) > 1 /\ Head(n) = "A")
    /\ ~(Len(n) > 2 /\ n[1] = "P1" /\ n[2] = "P2")
 
-Calls == [c : {"SetCT"}, ct : CTs] \cup [c : {"WH"}, s : Statuses]
-           \cup [c : {"W"}, tok : Toks] \cup [c : {"F"}]
+(* The handler alphabet.  Core: Header().Set, WriteHeader (final status), Write, Flush.                              *)
+(* Extended (IsExt): WriteHeader(1xx) (informational: net/http sends it and leaves the header open),                *)
+(*   WriteHeader(204) (a final status that forbids a body: what the handler writes afterwards never leaves the server) *)
+(*   Copy   io.Copy(w, reader over the token) -- no ReaderFrom on the wrappers: one Write per chunk, NO call at all  *)
+(*          for an empty reader (unlike Write of an empty slice, which commits the header)                           *)
+(*   FC     http.NewResponseController(w).Flush()  -- same meaning as F, other route to the Flusher                  *)
+(*   RB     the handler reads the request body to EOF and closes it                                                  *)
+(*   Probe  the handler asks w for its optional interfaces (Flusher, Hijacker, ReaderFrom, Pusher, Unwrap)           *)
+(*   Panic  the handler panics (always its last call)                                                                *)
+CoreCalls == [c : {"SetCT"}, ct : CTs] \cup [c : {"WH"}, s : FinalStatuses]
+               \cup [c : {"W"}, tok : Toks] \cup [c : {"F"}]
+ExtCalls  == [c : {"WH"}, s : InfoStatuses \cup NoBodyStatuses] \cup [c : {"Copy"}, tok : {"A", "B", "E"}]
+               \cup [c : {"FC"}] \cup [c : {"RB"}] \cup [c : {"Probe"}] \cup [c : {"Panic"}]
+Calls     == CoreCalls \cup ExtCalls
+IsExt(c)  == c.c \in {"Copy", "FC", "RB", "Probe", "Panic"} \/ (c.c = "WH" /\ c.s \in InfoStatuses \cup NoBodyStatuses)
+
+(* what a call amounts to on an http.ResponseWriter: one of SetCT / WH / W / F, or nothing *)
+Nop == [c |-> "Nop"]
+Norm(c) == CASE c.c = "Copy" -> (IF c.tok = "E" THEN Nop ELSE [c |-> "W", tok |-> c.tok])
+             [] c.c = "FC"   -> [c |-> "F"]
+             [] c.c \in {"RB", "Probe", "Panic"} -> Nop
+             [] OTHER -> c
+
+HasPanic(scr) == scr # <<>> /\ scr[Len(scr)].c = "Panic"
 
 -----------------------------------------------------------------------------
-(* The response map of the test document's operation:                        *)
+(* The response map of the test document's operations:                       *)
 (*   200: application/json, schema {type: object, required [id], id: integer}*)
 (*   201: description only (no content)                                      *)
 (*   anything else: undeclared => accepted (IncludeResponseStatus is off)    *)
-(* opt: the ValidationOptions the validator was built with, as far as they change the verdict  *)
-(*   "none" | "include_status" (IncludeResponseStatus: undeclared statuses are invalid)          *)
-(*          | "exclude_body"   (ExcludeResponseBody: content type and body are not checked)      *)
+(*   "include_status" (IncludeResponseStatus: undeclared statuses are invalid)                   *)
+(*   "exclude_body"   (ExcludeResponseBody: content type and body are not checked)               *)
 RespValidOpt(opt, status, ct, body) ==
    IF status = 200 THEN opt = "exclude_body" \/ (ct = "json" /\ body = ValidJson)
    ELSE IF status = 201 THEN TRUE
@@ -91,17 +164,24 @@ RespValid(status, ct, body) == RespValidOpt("none", status, ct, body)
 
 -----------------------------------------------------------------------------
 (* ClientModel: what the peer of a net/http ResponseWriter observes, from the raw calls *)
-(* made on that writer.  First WriteHeader wins, Write and Flush imply WriteHeader(200), *)
-(* returning without any call is an implicit 200; a status outside 100..999 panics.      *)
+(* made on that writer.  First WriteHeader with a final status wins, WriteHeader(1xx)    *)
+(* (other than 101) sends an informational response and commits nothing, Write and Flush *)
+(* imply WriteHeader(200), returning without any call is an implicit 200; a status       *)
+(* outside 100..999 panics; once a status that forbids a body (204, 304) is committed,   *)
+(* Write is refused (http.ErrBodyNotAllowed) and nothing of it reaches the client.       *)
 (* Every raw event carries ct, the Content-Type in the header map at that instant.       *)
 ClientInit == [wrote |-> FALSE, status |-> 0, ct |-> "none", body |-> "", panicked |-> FALSE]
 
 Commit(cl, s, ct) == IF cl.wrote THEN cl ELSE [cl EXCEPT !.wrote = TRUE, !.status = s, !.ct = ct]
 
+Informational(s) == s >= 100 /\ s <= 199 /\ s # 101
+
 ClientStep(cl, ev) ==
    CASE ev.e = "WH" -> IF ev.s < 100 \/ ev.s > 999 THEN [cl EXCEPT !.panicked = TRUE]
+                       ELSE IF Informational(ev.s) THEN cl
                        ELSE Commit(cl, ev.s, ev.ct)
-     [] ev.e = "W"  -> LET c == Commit(cl, 200, ev.ct) IN [c EXCEPT !.body = @ \o ev.data]
+     [] ev.e = "W"  -> LET c == Commit(cl, 200, ev.ct) IN
+                       IF c.status \in {204, 304} THEN c ELSE [c EXCEPT !.body = @ \o ev.data]
      [] ev.e = "F"  -> Commit(cl, 200, ev.ct)
 
 RECURSIVE ClientRun(_, _)
@@ -116,12 +196,13 @@ Effective(raw, finalCt) ==
 RECURSIVE DirectRaw(_, _, _)
 DirectRaw(scr, hdr, flusher) ==
    IF scr = <<>> THEN [raw |-> <<>>, hdr |-> hdr]
-   ELSE LET c == Head(scr) IN
+   ELSE LET c == Norm(Head(scr)) IN
         IF c.c = "SetCT" THEN DirectRaw(Tail(scr), c.ct, flusher)
         ELSE LET rest == DirectRaw(Tail(scr), hdr, flusher)
                  ev == CASE c.c = "WH" -> <<[e |-> "WH", s |-> c.s, ct |-> hdr]>>
                          [] c.c = "W"  -> <<[e |-> "W", data |-> Bytes(c.tok), ct |-> hdr]>>
                          [] c.c = "F"  -> IF flusher THEN <<[e |-> "F", ct |-> hdr]>> ELSE <<>>
+                         [] c.c = "Nop" -> <<>>
              IN [raw |-> ev \o rest.raw, hdr |-> rest.hdr]
 
 (* The strict wrapper does not implement http.Flusher, so a well-behaved handler's Flush *)
@@ -131,14 +212,17 @@ Direct(scr, strict) == LET d == DirectRaw(scr, "none", ~strict) IN Effective(d.r
 ErrText(status) == CASE status = 404 -> "not found\n"
                      [] status = 400 -> "bad request\n"
                      [] status = 500 -> "server error\n"
+                     [] OTHER -> "?"
 ErrCodeOf(status) == CASE status = 404 -> 1 [] status = 400 -> 2 [] status = 500 -> 3
 
 -----------------------------------------------------------------------------
 (* L1: the contract of property C14 for one run.                             *)
-(*  cfg = [strict, reqClass, errMode]; scr = the calls the handler makes if  *)
-(*  invoked; obs = [invoked (count), errs (seq of [status, code]), eff].     *)
-ExpectedGate(cfg) == IF cfg.reqClass \in ValidClasses THEN 0
-                     ELSE IF cfg.reqClass \in NotFoundClasses THEN 404 ELSE 400
+(*  cfg = [strict, reqClass, errMode, gate, opt, primer, auth]; scr = the    *)
+(*  calls the handler makes if invoked; obs = [invoked (count), errs (seq of *)
+(*  [status, code]), eff (what the client ends up with), silent (no call at  *)
+(*  all was made on the client's writer)].                                   *)
+ExpectedGate(cfg) == IF cfg.reqClass \in NotFoundClasses THEN 404
+                     ELSE IF RequestValid(cfg) THEN 0 ELSE 400
 
 ErrRespOK(cfg, status, eff) ==
    /\ eff.status = status
@@ -148,19 +232,23 @@ ErrRespOK(cfg, status, eff) ==
 (* is observed through its response.                                                         *)
 ErrsAre(cfg, obs, want) == cfg.errMode = "custom" => obs.errs = want
 
-(* the older request-only gate (openapi3filter.ValidationHandler with a ValidationErrorEncoder):  *)
+(* the older request-only gate (openapi3filter.ValidationHandler):                                  *)
 (* the handler runs iff the request is routed and valid, and then writes straight to the client;   *)
-(* otherwise the gate answers itself with an error status                                          *)
+(* otherwise the gate answers itself with an error status: through its ErrorEncoder -- the         *)
+(* harness's custom one records the call as [499, 0] and answers 499 "X"                           *)
 FailedVH(cfg, scr, obs) ==
    LET gate == ExpectedGate(cfg)  d == Direct(scr, FALSE) IN
    (IF obs.eff.panicked THEN {"no_panic"} ELSE {})
    \cup (IF obs.invoked # (IF gate = 0 THEN 1 ELSE 0) THEN {"handler_iff_valid"} ELSE {})
-   \cup (IF gate # 0 /\ obs.eff.status < 400 THEN {"gate_answers_itself"} ELSE {})
-   \cup (IF gate = 0 /\ obs.eff # d THEN {"nonstrict_passthrough"} ELSE {})
+   \cup (IF gate # 0 /\ ~(/\ obs.eff.status >= 400
+                          /\ (cfg.errMode = "custom" => (obs.errs = <<[status |-> 499, code |-> 0]>> /\ ErrRespOK(cfg, 499, obs.eff))))
+         THEN {"gate_answers_itself"} ELSE {})
+   \cup (IF gate = 0 /\ ~(ErrsAre(cfg, obs, <<>>) /\ obs.eff = d) THEN {"nonstrict_passthrough"} ELSE {})
 
 FailedV(cfg, scr, obs) ==
    LET gate == ExpectedGate(cfg)
        d    == Direct(scr, cfg.strict)
+       hp   == HasPanic(scr)
        \* strict mode defers the commit to the flush, so the Content-Type that goes out (and
        \* that the response check must use) is the one in the header map at handler return
        ok   == RespValidOpt(cfg.opt, d.status, DirectRaw(scr, "none", FALSE).hdr, d.body)
@@ -169,27 +257,32 @@ FailedV(cfg, scr, obs) ==
    \cup (IF obs.invoked # (IF gate = 0 THEN 1 ELSE 0) THEN {"handler_iff_valid"} ELSE {})
    \cup (IF gate # 0 /\ ~(ErrsAre(cfg, obs, <<[status |-> gate, code |-> ErrCodeOf(gate)]>>) /\ ErrRespOK(cfg, gate, obs.eff))
          THEN {"gate_answers_itself"} ELSE {})
+   \* a handler that panics has, on an unwrapped writer, sent what it sent before the panic
    \cup (IF gate = 0 /\ ~cfg.strict /\ ~(ErrsAre(cfg, obs, <<>>) /\ obs.eff = d)
          THEN {"nonstrict_passthrough"} ELSE {})
-   \cup (IF gate = 0 /\ cfg.strict /\ ok
+   \cup (IF gate = 0 /\ cfg.strict /\ ~hp /\ ok
             /\ ~(ErrsAre(cfg, obs, <<>>) /\ obs.eff.status = d.status /\ obs.eff.body = d.body)
          THEN {"strict_valid_exact"} ELSE {})
-   \cup (IF gate = 0 /\ cfg.strict /\ ~ok
+   \cup (IF gate = 0 /\ cfg.strict /\ ~hp /\ ~ok
             /\ ~(ErrsAre(cfg, obs, <<[status |-> 500, code |-> 3]>>) /\ ErrRespOK(cfg, 500, obs.eff))
          THEN {"strict_invalid_replaced"} ELSE {})
+   \* strict mode, handler panicked: its response was never validated, so nothing of it may reach the client
+   \* (the statement leaves open whether the panic propagates or is answered with a server error)
+   \cup (IF gate = 0 /\ cfg.strict /\ hp
+            /\ ~(obs.silent \/ (ErrsAre(cfg, obs, <<[status |-> 500, code |-> 3]>>) /\ ErrRespOK(cfg, 500, obs.eff)))
+         THEN {"strict_unvalidated_withheld"} ELSE {})
 
 (* strict_valid_exact compares status and body only: the strict wrapper defers WriteHeader, *)
 (* so headers the handler sets after its own WriteHeader still reach the client; the       *)
 (* property speaks of status and body.                                                     *)
-IsVH(c) == c.gate \in {"vhandler", "vhandler_mw"}
 Failed(cfg, scr, obs) == IF IsVH(cfg) THEN FailedVH(cfg, scr, obs) ELSE FailedV(cfg, scr, obs)
 Contract(cfg, scr, obs) == Failed(cfg, scr, obs) = {}
 
 -----------------------------------------------------------------------------
 (* L2: the middleware's own state machine.                                   *)
 VARIABLES
-   cfg,       \* [strict, reqClass, errMode]
-   phase,     \* "start" | "handler" | "respcheck" | "done"
+   cfg,       \* [strict, reqClass, errMode, gate, opt, primer, auth]
+   phase,     \* "start" | "handler" | "aborted" | "done"
    w,         \* wrapper state [hw, st, buf]     (headerWritten, status, body tokens)
    hdr,       \* Content-Type currently in the client's header map
    script,    \* handler calls so far (history; it IS the generated test case)
@@ -202,21 +295,38 @@ vars == <<cfg, phase, w, hdr, script, cOut, invoked, errs, logs>>
 
 WInit == [hw |-> FALSE, st |-> 0, buf |-> <<>>]
 
-Init ==
+(* the configurations of the universe *)
+CfgOK(c) ==
+   \* history: a Validator serves many requests; what it did for an earlier one (the primer), or does for others at the
+   \* same time, never shows in this one
+   /\ (c.primer # "none" => c.gate = "validator" /\ c.strict /\ c.errMode = "custom" /\ c.opt = "none" /\ c.auth = "callback"
+                             /\ c.reqClass \in {"valid_post", "inv_body"})
+   \* gate "validator": NewValidator(router, options...).Middleware(handler under test); the same Validator then wraps a
+   \*    second handler (one Validator, many wrappers: each runs its own handler)
+   \* gate "vhandler": ValidationHandler{Handler, AuthenticationFunc, ErrorEncoder}.ServeHTTP;
    \* gate "vhandler_mw": ValidationHandler.Middleware(next) around the handler under test, created next to a second
-   \* wrapper of the SAME ValidationHandler around another handler (each wrapper must run its own handler)
-   /\ cfg \in [strict : BOOLEAN, reqClass : ReqClasses, errMode : ErrModes, gate : {"validator", "vhandler", "vhandler_mw"},
-                opt : {"none", "include_status", "exclude_body"}, primer : Primers]
-   \* history: a Validator serves many requests; what it did for an earlier one (the primer) never shows in a later one
-   /\ (cfg.primer # "none" => cfg.gate = "validator" /\ cfg.strict /\ cfg.errMode = "custom" /\ cfg.opt = "none"
-                               /\ cfg.reqClass \in {"valid_post", "inv_body"})
-   /\ (cfg.gate \in {"vhandler", "vhandler_mw"} => ~cfg.strict /\ cfg.errMode = "default" /\ cfg.opt = "none")
-   /\ (cfg.opt # "none" => cfg.strict /\ cfg.errMode = "custom" /\ cfg.reqClass = "valid_post")   \* options matter for the strict verdict
+   \*    wrapper of the SAME ValidationHandler around another handler (each wrapper must run its own handler)
+   \* gate "vhandler_def": ValidationHandler{File} alone: Load installs http.DefaultServeMux (where the handler under test is
+   \*    registered), NoopAuthenticationFunc and DefaultErrorEncoder
+   /\ (IsVH(c) => ~c.strict /\ c.opt = "none" /\ c.auth \in {"callback", "noop", "nofunc"})
+   /\ (c.gate = "vhandler_mw"  => c.auth = "callback" /\ c.errMode = "default")
+   /\ (c.gate = "vhandler_def" => c.auth = "nofunc" /\ c.errMode = "default")
+   /\ (c.gate = "vhandler" /\ c.errMode = "custom" => c.auth = "callback")
+   /\ (c.opt \in RespOpts => c.strict /\ c.errMode = "custom" /\ c.reqClass = "valid_post" /\ c.auth = "callback")   \* options that matter for the strict verdict
+   /\ (c.opt \in ReqOpts => c.errMode = "custom" /\ c.auth \in {"callback", "nofunc"})                               \* options that matter at the gate
+   /\ (c.auth = "noopts" => c.opt = "none")
+   /\ (c.auth # "callback" /\ c.gate = "validator" => c.errMode = "custom")
+
+Init ==
+   /\ cfg \in [strict : BOOLEAN, reqClass : ReqClasses, errMode : ErrModes, gate : Gates, opt : Opts, primer : Primers, auth : Auths]
+   /\ CfgOK(cfg)
    /\ phase = "start" /\ w = WInit /\ hdr = "none" /\ script = <<>> /\ cOut = <<>>
    /\ invoked = 0 /\ errs = <<>> /\ logs = <<>>
 
 (* errFunc: the default one is http.Error; the harness's custom one records the call and *)
-(* writes WriteHeader(status), Write("X") without touching the header map.               *)
+(* writes WriteHeader(status), Write("X") without touching the header map.  errMode      *)
+(* "default" builds the Validator with neither OnErr nor OnLog (its own http.Error /     *)
+(* log.Printf callbacks), "custom" with both.                                            *)
 ErrFuncOut(status, h) ==
    IF cfg.errMode = "default"
    THEN [hdr |-> "errtext", out |-> <<[e |-> "WH", s |-> status, ct |-> "errtext"],
@@ -225,17 +335,21 @@ ErrFuncOut(status, h) ==
                              [e |-> "W", data |-> "X", ct |-> h]>>]
 
 (* statuses ConvertErrors + DefaultErrorEncoder give for the request classes of the test document *)
-VHStatus(rc) == CASE rc = "nf_path" -> 404 [] rc = "nf_method" -> 405 [] rc = "inv_body" -> 422 [] rc = "inv_param" -> 400
-                  [] rc = "inv_pathlevel" -> 404 [] rc = "inv_security" -> 500 [] OTHER -> 500
+VHStatus(rc) == CASE rc = "nf_path" -> 404 [] rc \in {"nf_method", "nf_options", "nf_head"} -> 405 [] rc = "inv_body" -> 422 [] rc = "inv_param" -> 400
+                  [] rc = "inv_pathlevel" -> 404 [] OTHER -> 500
 
 Gate ==   \* FindRoute / ValidateRequest fail: log, errFunc, return
-   /\ phase = "start" /\ cfg.reqClass \notin ValidClasses
+   /\ phase = "start" /\ ExpectedGate(cfg) # 0
    /\ LET status == ExpectedGate(cfg)
           ef == ErrFuncOut(status, hdr) IN
       IF IsVH(cfg)
-      THEN \* ErrorEncoder: some error status and body (not modelled further)
-           /\ cOut' = cOut \o <<[e |-> "WH", s |-> VHStatus(cfg.reqClass), ct |-> "errjson"], [e |-> "W", data |-> "?", ct |-> "errjson"]>>
-           /\ hdr' = "errjson" /\ UNCHANGED <<errs, logs>>
+      THEN IF cfg.errMode = "custom"
+           THEN /\ errs' = Append(errs, [status |-> 499, code |-> 0])
+                /\ cOut' = cOut \o <<[e |-> "WH", s |-> 499, ct |-> hdr], [e |-> "W", data |-> "X", ct |-> hdr]>>
+                /\ UNCHANGED <<hdr, logs>>
+           ELSE \* ErrorEncoder: some error status and body (not modelled further)
+                /\ cOut' = cOut \o <<[e |-> "WH", s |-> VHStatus(cfg.reqClass), ct |-> "errjson"], [e |-> "W", data |-> "?", ct |-> "errjson"]>>
+                /\ hdr' = "errjson" /\ UNCHANGED <<errs, logs>>
       ELSE
       /\ errs' = Append(errs, [status |-> status, code |-> ErrCodeOf(status)])
       /\ logs' = Append(logs, IF status = 404 THEN "noroute" ELSE "badreq")
@@ -244,14 +358,19 @@ Gate ==   \* FindRoute / ValidateRequest fail: log, errFunc, return
    /\ UNCHANGED <<cfg, w, script, invoked>>
 
 Invoke ==
-   /\ phase = "start" /\ cfg.reqClass \in ValidClasses
+   /\ phase = "start" /\ ExpectedGate(cfg) = 0
    /\ phase' = "handler" /\ invoked' = invoked + 1
    /\ UNCHANGED <<cfg, w, hdr, script, cOut, errs, logs>>
 
 (* one wrapper method call; returns the new wrapper state, header and client calls *)
-WrapStep(strict, ws, h, c) ==
+WrapStep(strict, ws, h, c0) ==
+   LET c == Norm(c0) IN
    CASE c.c = "SetCT" -> [w |-> ws, hdr |-> c.ct, out |-> <<>>]
-     [] c.c = "WH" ->
+     [] c.c = "Nop"   -> [w |-> ws, hdr |-> h, out |-> <<>>]
+     [] c.c = "WH" /\ InfoFix /\ c.s \in InfoStatuses /\ ~ws.hw ->
+          \* repaired wrappers: an informational response is not the response's status
+          [w |-> ws, hdr |-> h, out |-> IF strict THEN <<>> ELSE <<[e |-> "WH", s |-> c.s, ct |-> h]>>]
+     [] c.c = "WH" /\ ~(InfoFix /\ c.s \in InfoStatuses /\ ~ws.hw) ->
           LET w1 == IF ws.hw THEN ws ELSE [ws EXCEPT !.hw = TRUE, !.st = c.s] IN
           [w |-> w1, hdr |-> h,
            out |-> IF strict THEN <<>> ELSE <<[e |-> "WH", s |-> w1.st, ct |-> h]>>]
@@ -264,21 +383,30 @@ WrapStep(strict, ws, h, c) ==
           [w |-> ws, hdr |-> h, out |-> IF strict THEN <<>> ELSE <<[e |-> "F", ct |-> h]>>]
 
 (* no wrapper: the handler's calls are the client's calls *)
-DirectStep(ws, h, c) ==
+DirectStep(ws, h, c0) ==
+   LET c == Norm(c0) IN
    CASE c.c = "SetCT" -> [w |-> ws, hdr |-> c.ct, out |-> <<>>]
+     [] c.c = "Nop" -> [w |-> ws, hdr |-> h, out |-> <<>>]
      [] c.c = "WH" -> [w |-> ws, hdr |-> h, out |-> <<[e |-> "WH", s |-> c.s, ct |-> h]>>]
      [] c.c = "W"  -> [w |-> [ws EXCEPT !.buf = Append(@, c.tok)], hdr |-> h, out |-> <<[e |-> "W", data |-> Bytes(c.tok), ct |-> h]>>]
      [] c.c = "F"  -> [w |-> ws, hdr |-> h, out |-> <<[e |-> "F", ct |-> h]>>]
+
+(* the optional interfaces the writer handed to the handler offers: the client's writer itself (Flusher, Hijacker)  *)
+(* behind the request-only gate; the warn wrapper passes Flush through; the strict wrapper offers none; neither     *)
+(* wrapper has Unwrap, so http.ResponseController finds nothing more                                                *)
+Caps(c) == IF IsVH(c) THEN {"flusher", "hijacker"} ELSE IF c.strict THEN {} ELSE {"flusher"}
 
 HandlerCall(c) ==
    /\ phase = "handler"
    /\ LET r == IF IsVH(cfg) THEN DirectStep(w, hdr, c) ELSE WrapStep(cfg.strict, w, hdr, c) IN
       /\ w' = r.w /\ hdr' = r.hdr /\ cOut' = cOut \o r.out
    /\ script' = Append(script, c)
-   /\ UNCHANGED <<cfg, phase, invoked, errs, logs>>
+   \* a panic leaves the middleware through every frame: no response check, no flush, no errFunc
+   /\ phase' = IF c.c = "Panic" THEN "aborted" ELSE phase
+   /\ UNCHANGED <<cfg, invoked, errs, logs>>
 
-HandlerReturn ==
-   /\ phase = "handler" /\ phase' = "respcheck"
+Aborted ==
+   /\ phase = "aborted" /\ phase' = "done"
    /\ UNCHANGED <<cfg, w, hdr, script, cOut, invoked, errs, logs>>
 
 (* status the wrappers report to ValidateResponse (statusCode()): the strict wrapper     *)
@@ -304,14 +432,32 @@ RespCheckFrom(ph) ==
             ELSE UNCHANGED <<cOut, hdr, errs>>
    /\ UNCHANGED <<cfg, w, script, invoked>>
 
-RespCheck == RespCheckFrom("respcheck")
+(* the handler returns: response check and flush / errFunc *)
+RespCheck == RespCheckFrom("handler")
+
+(* what happens, silently for the trace, after the last handler call *)
+Epilogue == Gate \/ RespCheck \/ Aborted
+
+-----------------------------------------------------------------------------
+(* The generator: which behaviours are built for which configuration.                                                   *)
+(* Full depth (MaxCalls) for the configurations the response path depends on; the configurations that only vary the     *)
+(* gate (AuthenticationFunc, request-side options, the security classes of the second document) get SideCalls calls;    *)
+(* extended calls only under the main request class.                                                                    *)
+Full(c)   == /\ c.auth = "callback" /\ c.opt \notin ReqOpts
+             /\ c.reqClass \in {"valid_post", "valid_plain", "valid_secure", "valid_upgrade"}
+             /\ ~(c.gate = "vhandler" /\ c.errMode = "custom")
+Depth(c)  == IF Full(c) THEN MaxCalls ELSE SideCalls
+ExtCfg(c) == Full(c) /\ c.reqClass = "valid_post" /\ c.primer = "none"
+ExtCount(scr) == Cardinality({i \in DOMAIN scr : IsExt(scr[i])})
 
 (* the generator only builds behaviours whose body is "clear" *)
-Growable(c) == Len(script) < MaxCalls
-               /\ (c.c = "W" => Clear(Append(w.buf, c.tok)))
+Growable(c) == /\ Len(script) < Depth(cfg)
+               /\ (IsExt(c) => ExtCfg(cfg) /\ ExtCount(script) < ExtMax)
+               /\ (IsExt(c) \/ ExtCount(script) > 0 => Len(script) < ExtDepth)
+               /\ (Norm(c).c = "W" => Clear(Append(w.buf, Norm(c).tok)))
 
 Next ==
-   \/ Gate \/ Invoke \/ HandlerReturn \/ RespCheck
+   \/ Gate \/ Invoke \/ RespCheck \/ Aborted
    \/ \E c \in Calls : Growable(c) /\ HandlerCall(c)
 
 Spec == Init /\ [][Next]_vars
@@ -319,18 +465,24 @@ Spec == Init /\ [][Next]_vars
 -----------------------------------------------------------------------------
 (* Design-level check: in every terminal state of L2 the contract holds for  *)
 (* what a client of cOut observes.                                           *)
-ModelObs == [invoked |-> invoked, errs |-> errs, eff |-> Effective(cOut, hdr)]
+ModelObs == [invoked |-> invoked, errs |-> errs, eff |-> Effective(cOut, hdr), silent |-> cOut = <<>>]
 
-L2ImpliesL1 == phase = "done" => Contract(cfg, script, ModelObs)
+(* the model of the code as it is: the contract, up to the open findings (FindingsC14) *)
+L2ImpliesL1 == phase = "done" =>
+   LET bad == Failed(cfg, script, ModelObs) IN bad = {} \/ Class(cfg, script, bad) # "none"
+(* the model of the repaired code (InfoFix = TRUE): the contract, no exception *)
+L2ImpliesL1Pure == phase = "done" => Contract(cfg, script, ModelObs)
 
 TypeOK ==
-   /\ phase \in {"start", "handler", "respcheck", "done"}
+   /\ phase \in {"start", "handler", "aborted", "done"}
    /\ w.hw \in BOOLEAN /\ w.st \in Statuses \cup {0}
    /\ invoked \in 0..1
    /\ (cfg.gate = "validator" => (w.hw <=> w.st # 0))
 
 (* the wrapped handler runs at most once and never before the gate has passed *)
-HandlerOnlyAfterGate == invoked = 1 => cfg.reqClass \in ValidClasses
+HandlerOnlyAfterGate == invoked = 1 => RequestValid(cfg) /\ cfg.reqClass \notin NotFoundClasses
 NoClientBytesBeforeCheckInStrict ==
-   (cfg.strict /\ phase \in {"handler", "respcheck"}) => cOut = <<>>
+   (cfg.strict /\ phase \in {"handler", "aborted"}) => cOut = <<>>
+(* ... and none at all when the handler panicked *)
+StrictPanicSilent == (cfg.strict /\ phase = "done" /\ HasPanic(script)) => cOut = <<>>
 =============================================================================
